@@ -20,11 +20,11 @@ def badop(l, op):
                 {"datagram_length": l, "opcode": op, "other_bytes": "all symbolic"}, timeout=300)
 
 
-def tmpl(tag, data, positions, stable=False, real_utf8=False, timeout=600, mem_kb=None, unw=34):
+def tmpl(tag, data, positions, stable=False, real_utf8=False, timeout=600, mem_kb=None, unw=34, badutf8=False):
     name = "c10_t_%s_p%s%s%s" % (tag, "_".join(str(p) for p in positions), "_stable" if stable else "", "_utf8" if real_utf8 else "")
     attr = "" if real_utf8 else STUBS
-    inv = "c10_template!(%s%s, [%s], [%s], %s, %d);" % (attr, name, ",".join(str(x) for x in data), ",".join(str(p) for p in positions),
-                                                     "true" if stable else "false", unw)
+    inv = "c10_template!(%s%s, [%s], [%s], %s, %s, %d);" % (attr, name, ",".join(str(x) for x in data), ",".join(str(p) for p in positions),
+                                                         "true" if stable else "false", "true" if badutf8 else "false", unw)
     return Inst(name, "packet", inv, "c10_template",
                 {"template": data.decode("latin1").replace("\x00", "\\0"), "length": len(data), "symbolic_byte_positions": list(positions),
                  "re-encode_check": stable, "utf8": "real" if real_utf8 else "ASCII model"}, timeout=timeout, mem_kb=mem_kb)
@@ -105,6 +105,11 @@ def build(tier, seed):
     conc("neg", b"\x00\x01f\x00o\x00tsize\x00-1\x00")
     conc("empty_val", b"\x00\x01f\x00o\x00tsize\x00\x00")
     conc("empty_names", b"\x00\x01\x00\x00")
+    # non-ASCII message bytes through the real String::from_utf8: affordable for ERROR only.  The same for RRQ/WRQ/OACK
+    # (concrete bytes!) did not finish in 600 s: the real validator runs on the heap copy made by Convert::to_string and is
+    # not constant-folded.  Non-ASCII bytes inside request strings are therefore OUTSIDE the claim (seeds C10d-a, C11d-a).
+    for n, (data, bad) in enumerate([(b"\x00\x05\x00\x01\xc3\xa9\x00", False), (b"\x00\x05\x00\x02\xff\x00", True)]):
+        I.append(tmpl("utf8_%s_n%d" % ("bad" if bad else "ok", n), data, [], real_utf8=True, badutf8=bad))
     if tier == "thorough":
         I.append(dec(3, 1, timeout=3600, mem_kb=20 * 1024 * 1024))
         I.append(dec(3, 6, timeout=3600, mem_kb=20 * 1024 * 1024))
